@@ -412,7 +412,7 @@ class Interp:
                 return inner
             if isinstance(inner, MutSlot):
                 raise Unanalysable("write through an element of a mutable iterator outside a for loop", FX.short(e.get("sp")))
-            if (e["e"].get("ty") or "").startswith("&mut ") and e["e"]["k"] == "Path" and isinstance(inner, (Sc, IntV, Pt, Vec, Struct, Tup, Enum, Bytes)):
+            if (e["e"].get("ty") or "").startswith("&mut ") and e["e"]["k"] == "Path" and isinstance(inner, (Sc, IntV, Pt)):
                 # `*r = ..` where r: &mut T holds a plain value: the referent was lost on the way (the write would vanish)
                 raise Unanalysable("place behind a mutable reference is not tracked", FX.short(e.get("sp")))
             # deref of a by-value binding holding a plain value (e.g. &T param evaluated by value)
@@ -441,8 +441,25 @@ class Interp:
             return b.info["fields"][name]
         raise Unanalysable(f"field {name} of {b!r}", FX.short((e or {}).get("sp")))
 
+    def pending_write(self, b, idx):
+        """value written earlier in the current generic iteration to the very element that is read now (`a[i] *= u; a[i] += ..`)"""
+        if not isinstance(idx, IntV):
+            return None
+        for lc_ in reversed(self.loop_ctx):
+            for w_ref, w_idx, w_v, _ in reversed(lc_.get("writes", [])):
+                try:
+                    if self.deref(w_ref.get()) is b and eq(w_idx, idx.e):
+                        return w_v
+                except Unanalysable:
+                    continue
+        return None
+
     def index_val(self, b, idx, e=None):
         b = self.deref(b)
+        if self.loop_ctx and isinstance(b, Vec):
+            pw = self.pending_write(b, idx)
+            if pw is not None:
+                return pw
         if isinstance(b, IterV):
             b = b.vec
         if isinstance(idx, Opaque) and idx.what == "rangefull":
@@ -1051,7 +1068,7 @@ class Interp:
             return vt
         if isinstance(vt, Enum) and isinstance(vf, Enum) and vt.variant == vf.variant and len(vt.payload) == 1 and vt.payload[0] is vf.payload[0]:
             return vt
-        if isinstance(vt, Vec) and isinstance(vf, Vec):
+        if isinstance(vt, (Vec, Tup)) and vt.__class__ is vf.__class__:
             return self.merge_val(c, vt, vf, None)
         return Ite(c, vt, vf)
 
@@ -1109,6 +1126,14 @@ class Interp:
             return tgt
         if isinstance(a, (Sc, IntV, Pt, Tup, Enum, Vec, Ite, Opaque)) and val_eq(a, b):
             return a
+        if isinstance(a, Tup) and isinstance(b, Tup) and len(a.items) == len(b.items):
+            return Tup([self.merge_val(c, x, y, None) for x, y in zip(a.items, b.items)])
+        if isinstance(a, Vec) and isinstance(b, Vec) and isinstance(c, Cond) and c.op == "lt" and sp.sympify(c.a) == 0 and sp.sympify(c.b).is_Symbol:
+            # `if n > 0 { <vector of length f(n)> } else { <empty vector> }` with f(0) = 0: on the else side the then-value
+            # *is* the empty vector, so the conditional is the then-value
+            full, empty = (a, b) if not c.neg else (b, a)
+            if eq(empty.length(), 0) and sp.expand(sp.sympify(full.length()).subs(sp.sympify(c.b), 0)) == 0:
+                return full
         if isinstance(a, Vec) and isinstance(b, Vec):
             # join: one side extends the other by havoc-length segments -> the general side
             for lo, hi in ((a, b), (b, a)):
@@ -1325,6 +1350,13 @@ class Interp:
 
     def ev_for(self, e, env):
         pat, it_expr, body = self.desugar_for(e)
+        if it_expr["k"] == "AddrOf" and it_expr.get("mut") and (it_expr.get("ty") or "").startswith("&mut "):
+            # `for x in &mut v` / `&mut v[a..]`: mutable iteration over the place itself (same as iter_mut())
+            pl = self.place(it_expr["e"], env)
+            cur = self.deref(pl.get())
+            if isinstance(cur, Vec):
+                self.run_loop(pat, IterV(cur, by_ref_mut=pl), body, env, e)
+                return UNIT
         itv = self.ev(it_expr, env)
         itv = self.to_iter(itv, it_expr)
         self.run_loop(pat, itv, body, env, e)
